@@ -33,6 +33,7 @@ VALREPS = {
     2: [2, 2.0],
     3: ["x", "".join(["x"])],
     4: [(1, 2), tuple([1, 2])],
+    5: [None],
 }
 
 
@@ -663,6 +664,10 @@ class Real:
                 val = (self.pv(spec[1]), (self.pv(spec[2]), 1), "s")
             elif spec[0] == "lst":
                 val = [self.pv(spec[1]), {"k": self.pv(spec[2])}]
+            elif spec[0] == "big":
+                # a large atom (str / bytes): pickle writes payloads >= 64 KiB through a separate path
+                n = int(spec[1])
+                val = ("\u00e9" * (n // 2)) if spec[2] == "s" else bytes(range(256)) * (n // 256)
             else:
                 owner, attr = spec[1].split(".")
                 val = getattr(self.pv(owner), attr)
